@@ -86,7 +86,7 @@ class Construction:
 
   @staticmethod
   def _init_comment_data(data):
-    if isinstance(data, list) and (data[0] != "#"):
+    if isinstance(data, list) and (data[0] != "#" or len(data) < 3):
       # unproperly splitten, rejoin
       data = "\t".join(data)
     if isinstance(data, str):
